@@ -429,6 +429,66 @@ def scatterAllDynamic (startAttr : Option Int) (axis : Option Int) (data td : Op
      | _, _ => false)
   | _, _, _, _ => false
 
+/-- `ScatterAllStatic.check`: `reduction == "none"`, `same_shape(data, updates)`, constant `indices`
+equal to `[[0], [1], …, [data.shape[0]-1]]` with `data.shape[0]` an int.  (Rank-0 `data` would raise; not
+generated.)  `true` = `ScatterND(data, indices, updates)` is replaced by `Identity(updates)`. -/
+def scatterAllStatic (reductionNone : Bool) (data upd : Option Shape) (indices : Option (List (List Int))) : Bool :=
+  reductionNone && sameShape data upd &&
+  (match indices, data with
+   | some idx, some (.known n :: _) => decide (idx = (List.range n.toNat).map (fun (i : Nat) => [(i : Int)]))
+   | _, _ => false)
+
+def INT64_MAX : Int := 9223372036854775807
+
+/-- `_collapse_slices._check_if_redundant_slice`: each of starts/ends/axes/steps is `some v` when it is a
+constant of size 1 (its single element), `none` otherwise. -/
+def redundantSlice (start stop axis step : Option Int) (data : Option Shape) : Bool :=
+  match start, stop, axis, step with
+  | some st, some en, some ax, some sp =>
+    if sp ≠ 1 then false
+    else if st ≠ 0 then false
+    else if en = INT64_MAX then true
+    else match data with
+      | none => false
+      | some s =>
+        (match pyIndex s ax with
+         | some (.known d) => !(decide (en < d))
+         | _ => false)
+  | _, _, _, _ => false
+
+/-- `_collapse_slices._same_shape` (rule `collapse_slice2`): every step 1 (`steps` a constant) and
+`same_shape(data, slice_output)`. -/
+def sliceSameShape (data out : Option Shape) (steps : Option (List Int)) : Bool :=
+  match data, out with
+  | some _, some _ =>
+    (match steps with
+     | some sp => sp.all (· == 1) && sameShape data out
+     | none => false)
+  | _, _ => false
+
+/-- `SqueezeReshape.check` (`Reshape(Squeeze(x), [-1])` → `Identity(x)`): `has_rank(x, 1)`. -/
+def squeezeReshape1d (x : Option Shape) : Bool :=
+  match x with
+  | some s => decide (s.length = 1)
+  | none => false
+
+structure ConstInfo where
+  isInt64 : Bool
+  ndim : Nat
+  vals : List Int        -- flattened contents; `size = vals.length`
+  deriving DecidableEq, Repr
+
+/-- `OptimizerState.get_shape_value(value)`: a constant is read only if INT64 and of size ≤ 10
+(`_get_numpy_value(value, INT64, size_limit=10)`, which since 3131a7c also answers None for graph inputs:
+pass `none`); then it must be 1-D, otherwise `None` *without* falling back to the symbolic value. -/
+def getShapeValue (c : Option ConstInfo) (sym : Option Shape) : Option Shape :=
+  match c with
+  | some ci =>
+    if ci.isInt64 && decide (ci.vals.length ≤ 10) then
+      (if ci.ndim = 1 then some (ci.vals.map Dim.known) else none)
+    else sym
+  | none => sym
+
 /-! ## The ONNX specification side -/
 
 /-- multidirectional broadcasting of two dimension values. -/
@@ -487,6 +547,19 @@ def reshapeTarget (inp tgt : List Int) (allowzero : Bool) : Option (List Int) :=
 /-- `Flatten(axis)` for `0 ≤ axis ≤ rank`. -/
 def flattenSpec (inp : List Int) (axis : Nat) : List Int :=
   [prodInt (inp.take axis), prodInt (inp.drop axis)]
+
+/-- ONNX `Slice` along one axis with step 1 on a dim of size `d`: negative bounds count from the end,
+both are clamped to `[0, d]`; the selected index range is `[s, e)`. -/
+def sliceRange1 (d start stop : Int) : Int × Int :=
+  let c (i : Int) : Int := max 0 (min d (if i < 0 then i + d else i))
+  (c start, c stop)
+
+/-- `Squeeze(x)` without axes: every dim of size 1 is removed. -/
+def squeezeAllSpec (l : List Int) : List Int := l.filter (· != 1)
+
+/-- element of `x` (reversed shape `xs`) read for the reversed output index `idx` under broadcasting:
+size-1 dims read position 0, dims beyond `x`'s rank are dropped. -/
+def readIdx (xs idx : List Int) : List Int := List.zipWith (fun a i => if a = 1 then 0 else i) xs idx
 
 /-! ## Meaning of a shape annotation -/
 
